@@ -28,30 +28,40 @@ pub struct Cfg {
     /// lazer taiko DifficultyAdjust with this scroll speed (forces the lazer representation, taiko mode)
     #[serde(default)]
     pub da_scroll: Option<f64>,
+    /// lazer Random mod (taiko and mania variants) with this seed (forces the lazer representation)
+    #[serde(default)]
+    pub random_seed: Option<i32>,
 }
 
 impl Cfg {
     pub fn game_mods(&self) -> rosu_pp::GameMods {
-        if let Some(sp) = self.da_scroll {
-            let im = rosu_mods::GameModsIntermode::from_bits(self.mods);
-            let mut lazer = im.with_mode(rosu_mods::GameMode::Taiko);
-            lazer.insert(rosu_mods::GameMod::DifficultyAdjustTaiko(rosu_mods::generated_mods::DifficultyAdjustTaiko {
-                scroll_speed: Some(sp),
-                ..Default::default()
-            }));
+        let mut im = rosu_mods::GameModsIntermode::from_bits(self.mods);
+        if let Some(a) = &self.acronyms {
+            for acr in a.split(',').filter(|s| !s.is_empty()) {
+                im.insert(rosu_mods::GameModIntermode::from_acronym(acr.parse::<rosu_mods::Acronym>().expect("acronym")));
+            }
+        }
+        if self.da_scroll.is_some() || self.random_seed.is_some() {
+            // mods with settings only exist in the lazer representation
+            use rosu_mods::generated_mods as gm;
+            let mode = if self.da_scroll.is_some() { rosu_mods::GameMode::Taiko } else { rosu_mods::GameMode::Mania };
+            let mut lazer = im.with_mode(mode);
+            if let Some(sp) = self.da_scroll {
+                lazer.insert(rosu_mods::GameMod::DifficultyAdjustTaiko(gm::DifficultyAdjustTaiko { scroll_speed: Some(sp), ..Default::default() }));
+            }
+            if let Some(seed) = self.random_seed {
+                // a lazer set must hold mods of ONE mode (lookups rely on its ordering): taiko with da_scroll, else mania
+                if self.da_scroll.is_some() {
+                    lazer.insert(rosu_mods::GameMod::RandomTaiko(gm::RandomTaiko { seed: Some(f64::from(seed)), ..Default::default() }));
+                } else {
+                    lazer.insert(rosu_mods::GameMod::RandomMania(gm::RandomMania { seed: Some(f64::from(seed)), ..Default::default() }));
+                }
+            }
             return lazer.into();
         }
         match &self.acronyms {
             None => self.mods.into(),
-            Some(a) => {
-                let mut im = rosu_mods::GameModsIntermode::from_bits(self.mods);
-                for acr in a.split(',').filter(|s| !s.is_empty()) {
-                    im.insert(rosu_mods::GameModIntermode::from_acronym(
-                        acr.parse::<rosu_mods::Acronym>().expect("acronym"),
-                    ));
-                }
-                im.into()
-            }
+            Some(_) => im.into(),
         }
     }
 
@@ -128,6 +138,20 @@ pub fn cfgs(tier: &str) -> Vec<Cfg> {
             od: Some((3.0, true)),
             hp: Some((2.0, false)),
             lazer: Some(false),
+            ..Default::default()
+        },
+        // lazer Random mod with a seed (taiko colours / mania columns are reshuffled; counts are not)
+        Cfg {
+            mods: 0,
+            random_seed: Some(42),
+            clock_rate: Some(1.2),
+            ..Default::default()
+        },
+        // ... and the taiko variant (a taiko DifficultyAdjust keeps the lazer set in taiko mode)
+        Cfg {
+            mods: 8,
+            random_seed: Some(1337),
+            da_scroll: Some(1.0),
             ..Default::default()
         },
         // the lazer-only Classic mod (no legacy bit) on a lazer score
